@@ -39,7 +39,7 @@ Ltac kill_ind :=
 Ltac unfold_spec :=
   cbv [realises drawn_RC brel_RC Yeff drawn_L brel_L drawn_V brel_V drawn_AM brel_AM drawn_I brel_I
        drawn_VCVS brel_VCVS Ac drawn_VCCS brel_VCCS drawn_CCCS brel_CCCS drawn_CCVS brel_CCVS
-       drawn_K brel_K ZM drawn_TF brel_TF drawn_GY brel_GY drawn_TPA brel_TPA tpA
+       drawn_K brel_K ZM MI drawn_TF brel_TF drawn_GY brel_GY drawn_TPA brel_TPA tpA
        drawn_TPY brel_TPY drawn_TR brel_TR drawn_SP brel_SP drawn_RV brel_RV dV01 dV23 thru vv
        kind typ p0 p1 p2 p3 c0 c1 bown bextra bctrl bL1 bL2 has_ic ctrl_is_vsrc has_arg1 tp_has_src par] in *.
 Ltac rows :=
